@@ -369,6 +369,11 @@ type C18Call struct {
 	Module bool    `json:"module"` // ActivateModuleByType instead of ActivateByType
 	Code   int     `json:"code"`
 	X      float64 `json:"x"`
+	// Other: instead of a request to the shared table, a custom activator "Custom<code>" is registered under Code on a
+	// second, private factory; the shared table must keep refusing that code and that name
+	Other bool `json:"register_on_another_factory,omitempty"`
+	// Lookup: a name / code lookup on the shared table instead of an activation
+	Lookup bool `json:"lookup,omitempty"`
 }
 
 type C18Calls struct {
@@ -382,6 +387,12 @@ func GenC18Calls() *rapid.Generator[C18Calls] {
 		last := 0
 		for i := 0; i < n; i++ {
 			call := C18Call{Module: rapid.IntRange(0, 3).Draw(t, "module call") == 0, X: rapid.Float64Range(-4, 4).Draw(t, "x")}
+			switch rapid.IntRange(0, 7).Draw(t, "call kind") {
+			case 0:
+				call.Other = true
+			case 1:
+				call.Lookup = true
+			}
 			switch rapid.IntRange(0, 3).Draw(t, "code kind") {
 			case 0:
 				call.Code = rapid.IntRange(1, 23).Draw(t, "registered")
@@ -401,11 +412,36 @@ func GenC18Calls() *rapid.Generator[C18Calls] {
 
 func CheckC18Calls(c C18Calls, rec *Rec) error {
 	refused := 0
+	other := neatmath.NewNodeActivatorsFactory()
 	for i, call := range c.Calls {
 		typ := neatmath.NodeActivationType(call.Code)
 		ref, scalar := actRefs[call.Code]
 		_, module := moduleNames[call.Code]
 		where := fmt.Sprintf("call %d of %v", i, c.Calls)
+		if call.Other {
+			if !scalar && !module { // a code the shared table does not know: registered on the private factory only
+				other.Register(typ, func(x float64, _ []float64) float64 { return x + 1 }, fmt.Sprintf("Custom%d", call.Code))
+				rec.Class("custom activator registered on another factory")
+			}
+			continue
+		}
+		if call.Lookup {
+			name, err := neatmath.NodeActivators.ActivationNameFromType(typ)
+			if scalar || module {
+				if err != nil || (scalar && name != ref.name) || (module && name != moduleNames[call.Code]) {
+					return fmt.Errorf("%s: name of the registered type code %d is (%q, %v)", where, call.Code, name, err)
+				}
+			} else {
+				if err == nil {
+					return fmt.Errorf("%s: the shared table names the unregistered type code %d %q instead of returning an error", where, call.Code, name)
+				}
+				if t2, err := neatmath.NodeActivators.ActivationTypeFromName(fmt.Sprintf("Custom%d", call.Code)); err == nil {
+					return fmt.Errorf("%s: the shared table maps the name Custom%d, which was never registered with it, to type %d", where, call.Code, t2)
+				}
+				refused++
+			}
+			continue
+		}
 		if call.Module {
 			out, err := neatmath.NodeActivators.ActivateModuleByType([]float64{call.X}, nil, typ)
 			if module {
